@@ -26,6 +26,7 @@ type c19Arg struct {
 	Flag   int  `json:"flag"`
 	Magnet bool `json:"magnet"`
 	Order  int  `json:"order"` // permutation index of the stimulus order
+	Restart bool `json:"restart"` // the client is restarted (session closed and reopened on the same database) before the torrent is started
 }
 
 type c19Flag struct {
@@ -44,8 +45,11 @@ var c19Flags = []c19Flag{
 	{"str-x", "x", ""},
 	{"str-empty", "", ""},
 	{"str-0", "0", ""},
-	{"list", []any{int64(1)}, ""},
-	{"dict", refcodec.D("a", int64(1)), ""},
+	// a present key whose value is neither integer nor string is still an encoding of the flag ("odd types" in
+	// the property's quantifier): the torrent is marked private
+	{"list", []any{int64(1)}, "private"},
+	{"dict", refcodec.D("a", int64(1)), "private"},
+	{"empty-list", []any{}, "private"},
 }
 
 const (
@@ -94,6 +98,14 @@ func mkC19() *Scenario {
 			w.Quiesce()
 		} else {
 			w.AddTorrent(g, nil)
+		}
+		if arg.Restart {
+			// added, never started (no bitfield in the resume data), then the client restarts
+			w.RestartSession()
+			if w.Tor == nil {
+				core.HarnessError("c19: torrent did not come back after the restart")
+			}
+			w.S.VerifFakeDHT(true)
 		}
 		P1 = w.NewPeer("p1", "10.0.0.1", 5001)
 		P1.Ext, P1.DHT = true, true
@@ -285,8 +297,8 @@ func c19Check(w *World, arg c19Arg, g *GenTorrent, P1, P2 *Peer, ts *HTTPTracker
 func TestC19(t *testing.T) {
 	ServeIfWorker(t)
 	rep := core.NewReport("C19", "lab-private", "model_checking")
-	rep.Rule = "every encoding of the private flag {absent, i0e, i1e, i2e, i-1e, '1', 'x', '', '0', list, dict} x {.torrent, magnet} x 5 orders of the stimuli {peer advertises ut_pex, PEX message with a dialable address, port message, injected DHT result, 61 s clock advance}; session with PEX on and DHT configured on; observations: frames sent to peers, dial log, Stats().Addresses, DHT announcer/request set, Magnet(), peer-id / ext version / tracker User-Agent"
-	rep.Assumptions = []string{"the DHT node itself is not started (DHT configured on through an in-package hook; results injected on the torrent's DHT channel)", "odd encodings (i2e, strings, list, dict) may be read either way but all behaviour must be consistent with Stats().Private"}
+	rep.Rule = "every encoding of the private flag {absent, i0e, i1e, i2e, i-1e, '1', 'x', '', '0', list, dict, empty list} x {.torrent, magnet, .torrent + client restart before the first start} x 5 orders of the stimuli {peer advertises ut_pex, PEX message with a dialable address, port message, injected DHT result, 61 s clock advance}; session with PEX on and DHT configured on; observations: frames sent to peers, dial log, Stats().Addresses, DHT announcer/request set, Magnet(), peer-id / ext version / tracker User-Agent"
+	rep.Assumptions = []string{"the DHT node itself is not started (DHT configured on through an in-package hook; results injected on the torrent's DHT channel)", "integers other than 0/1 and strings other than \"1\" may be read either way but all behaviour must be consistent with Stats().Private; a present key of any other type marks the torrent private"}
 	var runs []Run
 	for fi := range c19Flags {
 		for _, magnet := range []bool{false, true} {
@@ -297,6 +309,8 @@ func TestC19(t *testing.T) {
 				runs = append(runs, Run{Scenario: "c19", Arg: c19Arg{Flag: fi, Magnet: magnet, Order: o}, Budget: 0})
 			}
 		}
+		// the same torrent added, the client restarted (no bitfield stored yet), then started
+		runs = append(runs, Run{Scenario: "c19", Arg: c19Arg{Flag: fi, Order: 0, Restart: true}, Budget: 0})
 	}
 	Explore("TestC19", rep, runs)
 	if n, _ := rep.Extra["private_runs_checked"].(int64); n == 0 {
